@@ -717,3 +717,25 @@ def r2b(cx):
                      'components remain: a shortcut that prunes the descent (e.g. "the entry is not a directory" decided without '
                      'following symbolic links) makes pathname expansion omit existing matching paths such as link/*',
                      loc=body.loc(body.term(p[min(len(p) - 1, 1)])), path=Q.render_path(body, p))
+
+
+@RS.rule('C05.R2c', 'K-SIBLING', 'a literal component exists iff the directory scan would list it: the existence test looks at the directory entry '
+         'itself and does not follow a symbolic link in the last component (a dangling link is an existing, matching pathname)')
+def r2c(cx):
+    import mirq as Q
+    F = cx.F
+    fb = F.body(FILE_EXISTS)
+    cx.fn(fb.fn)
+    st = Q.find_calls(fb, ['*::Fstat::fstatat'])
+    cx.require(len(st) == 1, 'file_exists does not call fstatat exactly once (C05.R2 reports that)')
+    t = st[0][1]
+    flag = t['a'][-1]
+    val = str(flag.get('c')) if isinstance(flag, dict) and 'c' in flag else None
+    cx.site('%s: fstatat(.., follow_symlinks = %s) at %s; the scan (Dir::next) lists every entry, dangling links included' % (fb.fn, val, fb.loc(t)))
+    if val is None:
+        cx.violation(FILE_EXISTS, 'follow-flag-computed', 'the follow-symlinks flag of the existence test is not a constant: review', loc=fb.loc(t))
+    elif val.endswith('true'):
+        cx.violation(FILE_EXISTS, 'existence-follows-symlink', 'the existence test of a literal last component follows symbolic links, the '
+                     'directory scan of a pattern component does not: with `ln -s /nonexistent d/link`, `echo */lin*` prints d/link but '
+                     '`echo */link` prints */link - an existing matching pathname is omitted, depending on how the same name is spelled',
+                     loc=fb.loc(t))
